@@ -279,7 +279,7 @@ PLANS['C13'] = dict(
 
 
 def _c14_jobs(tier):
-    shards, cases = (4, 4) if tier == 'quick' else (8, 8)
+    shards, cases = (8, 2) if tier == 'quick' else (8, 8)
     return [dict(mode=m, shards=shards, cases=cases, nshards=shards) for m in ('py', 'c')]
 
 
@@ -290,7 +290,7 @@ PLANS['C14'] = dict(
     rule='Complete enumeration of the case product: __conform__ in {absent, returns None, returns value (plain method, staticmethod, function / functools.partial / callable object in the instance dict), body raises '
          'ValueError/TypeError/AttributeError/KeyError (also TypeError/AttributeError from a staticmethod, a function or a callable object in the '
          'instance dict), attribute access raises AttributeError / RuntimeError} x provided in '
-         '{no, via class, directly} x every hook list of length <= 2 (quick) / <= 3 (thorough) over {returns None, returns value, '
+         '{no, via class, directly, via class / directly through an interface extending the one asked for} x every hook list of length <= 2 (quick) / <= 3 (thorough) over {returns None, returns value, '
          'raises} x alternate in {absent, given, None} x custom __adapt__ in {none} + {own, inherited, inherited via a class that '
          'adds another interfacemethod, inherited two such levels deep} x {returns None, value, raises, delegates to the default}; '
          'for each: I(obj[, alt]) and I.__adapt__(obj); outcome (result identity, exception identity, TypeError args) and exact '
